@@ -14,10 +14,11 @@ import (
 // C20: the pattern-based checks fire exactly where their pattern occurs.
 
 type c20Inst struct {
-	code    string      // one line of Lua (statement, or expression to be planted)
-	expr    bool        // code is an expression
+	code    string       // one line of Lua (statement, or expression to be planted)
+	expr    bool         // code is an expression
 	must    map[int]bool // types that must be reported exactly once on the line
 	mustNot map[int]bool // types that must not be reported on the line
+	times   map[int]int  // how often a must type is due on the line when that is not once (two different duplicated keys)
 	family  string
 }
 
@@ -138,6 +139,12 @@ func c20Instances() []c20Inst {
 		}
 	}
 	rec(nil)
+	// two different keys, each given twice, in one constructor: two places where the pattern occurs, two reports (those for
+	// integer keys carry the range of the whole constructor and differ in the message only)
+	for _, ks := range [][]string{{"[1] = 1", "[1] = 2", "[2] = 3", "[2] = 4"}, {"[1] = 1", "[2] = 2", "[1] = 3", "[2] = 4"}, {"x = 1", "x = 2", "y = 3", "y = 4"},
+		{"x = 1", "[1] = 2", "x = 3", "[1] = 4"}, {"[1] = 1", "[1] = 2", "[2] = 3", "[2] = 4", "z = 5"}} {
+		out = append(out, c20Inst{code: "t = {" + strings.Join(ks, ", ") + "}", must: set(5), mustNot: set(7, 8, 13, 14, 15, 16, 19, 20, 21), times: map[int]int{5: 2}, family: "table-constructor"})
+	}
 	// assignments and local declarations: 1-3 targets, 1-3 values
 	vals := []string{"1", "f()", "(f())", "..."}
 	names := []string{"p", "q", "r"}
@@ -342,7 +349,7 @@ func c20Instances() []c20Inst {
 }
 
 // contexts: how an instance is planted; %s is the instance, the instance line is the one containing it
-var c20ExprCtx = []string{"x = %s", "local v = %s", "f(%s)", "t = {%s}", "t = {k = %s}", "if %s then end", "while %s do end", "return %s",
+var c20ExprCtx = []string{"x = %s", "local v = %s", "local v = c, %s", "x = c, %s", "local v, u = c, c, %s", "f(%s)", "t = {%s}", "t = {k = %s}", "if %s then end", "while %s do end", "return %s",
 	"x = function() return %s end", "f(1, %s)", "x = (%s)", "x = not (%s)"}
 var c20Wrap = []string{"%s", "do\n%s\nend", "function w()\n%s\nend", "if c then\n%s\nend", "if c then\nelse\n%s\nend", "for i = 1, 2 do\n%s\nend",
 	"w = function()\nlocal k = 1\n%s\nend", "do\ndo\n%s\nend\nend", "function w()\nif c then\n%s\nend\nend"}
@@ -360,6 +367,16 @@ func c20Build(in c20Inst, ec, wc int) c20Case {
 	if in.expr {
 		stmt = fmt.Sprintf(c20ExprCtx[ec], in.code)
 		ctx = c20ExprCtx[ec] + " in "
+		if strings.Contains(c20ExprCtx[ec], "c, %s") {
+			// the instance is a surplus value: the statement itself is (rightly) reported with 7 or 8, which is not judged here
+			mn := map[int]bool{}
+			for t, v := range in.mustNot {
+				if t != 7 && t != 8 {
+					mn[t] = v
+				}
+			}
+			in.mustNot = mn
+		}
 	}
 	w := c20Wrap[wc]
 	ctx += strings.ReplaceAll(w, "\n", " ")
@@ -435,10 +452,16 @@ func c20Space(tier string) *core.Space {
 			for _, t := range c20Types {
 				r.States++
 				sig := ""
+				due := 1
+				if n, ok := c.in.times[t]; ok {
+					due = n
+				}
 				switch {
 				case c.in.must[t] && counts[t] == 0:
 					sig = fmt.Sprintf("pattern-not-reported:type%d:%s", t, c.in.family)
-				case c.in.must[t] && counts[t] > 1:
+				case c.in.must[t] && counts[t] < due:
+					sig = fmt.Sprintf("pattern-reported-%d-times-instead-of-%d:type%d:%s", counts[t], due, t, c.in.family)
+				case c.in.must[t] && counts[t] > due:
 					sig = fmt.Sprintf("pattern-reported-%d-times:type%d:%s", counts[t], t, c.in.family)
 				case c.in.mustNot[t] && counts[t] > 0:
 					sig = fmt.Sprintf("reported-without-pattern:type%d:%s", t, c.in.family)
@@ -473,7 +496,7 @@ func init() {
 		ID:        "C20",
 		Technique: "bounded-exhaustive enumeration of pattern instances and near-misses (per-pattern small spaces x syntactic contexts x nesting wraps) on the real server against independent pattern matchers with explicit don't-care zones",
 		Rule: "instances: all binary expressions e1 op e2 over 10 operands and 13 operators; all table constructors with <=3 entries over 6 key forms; all assignments / local declarations with 1-3 targets and 1-3 values over {1, f(), (f()), ...}; all parameter lists <=3 over {a,b,c} in three function forms; " +
-			"all if/elseif chains of 2-3 conditions over 4 conditions; all single assignments l = r over 5 lvalues; each planted in 12 expression contexts (expressions) and 4 (quick) / 9 (thorough) nesting wraps. " +
+			"all if/elseif chains of 2-3 conditions over 4 conditions; all single assignments l = r over 5 lvalues; each planted in 15 expression contexts (three of them the surplus value of an over-long assignment or local declaration) (expressions) and 4 (quick) / 9 (thorough) nesting wraps. " +
 			"For each of the types 5,7,8,13,14,15,16,19,20,21: must be reported exactly once on the instance line / must not be reported / not judged. states = (program, type) obligations; non-trivial = programs containing a pattern that must be reported",
 		Assumptions: []string{
 			"don't-care: literal operands of comparisons for type 14, same operands under operators the documentation does not list, positional value versus [n]= keys, parenthesised calls in value lists, three or more repetitions",
